@@ -276,3 +276,23 @@ Section ArgumentsState.
 End ArgumentsState.
 Arguments argument_after {A C}.
 Arguments mapped_with_arguments {A C}.
+
+(* ------------------------------------------------------------------------------------------ *)
+(* one-shot iterables (generators, iter(list), filter / map objects)                            *)
+(* ------------------------------------------------------------------------------------------ *)
+(* The candidates are an `Iterable`: a container that may be traversable only once.  `uses` lists, in source order,
+   what a branch does with the argument before and at dispatch (generated: rd_parallel_uses_of_candidates):
+   "materialise" = list(candidates) (afterwards it is a list), "dispatch" = the traversal that feeds the tasks,
+   anything else that looks into the container ("other": iter / next / a truth test; "len" before materialising is
+   not defined for one-shot iterables) consumes its first element (if any).  `seen_by_dispatch` = the items the
+   tasks are made of. *)
+Require Import Coq.Strings.String.
+Fixpoint seen_by_dispatch {A : Type} (uses : list string) (materialised : bool) (xs : list A) : option (list A) :=
+  match uses with
+  | [] => None                                          (* never dispatched *)
+  | u :: us =>
+      if String.eqb u "dispatch" then Some xs
+      else if String.eqb u "materialise" then seen_by_dispatch us true xs
+      else if materialised then seen_by_dispatch us materialised xs
+      else seen_by_dispatch us materialised (tl xs)       (* a peek consumes the first item *)
+  end.
